@@ -238,6 +238,9 @@ func wlRequest(o op) resourcetypes.Resources {
 	if m := o.i("mem"); m != 0 {
 		raw["memory-request"] = int64(m)
 	}
+	if l := o.i("mem_limit"); l != 0 {
+		raw["memory-limit"] = int64(l)
+	}
 	if c := o.i("cpu_milli"); c != 0 {
 		raw["cpu-request"] = float64(c) / 1000
 	}
@@ -709,6 +712,9 @@ func (g *gen) request(o op) {
 		o["cpu_milli"] = hx.Pick(r, 500, 1000, 1000, 1500, 2000)
 		o["bind"] = true
 	}
+	if r.Chance(35) { // memory limit above the request: only the request counts against capacity
+		o["mem_limit"] = o.i("mem") * hx.Pick(r, 2, 3)
+	}
 }
 
 func (g *gen) nextOp(pre snapJ, only string) op {
@@ -783,7 +789,18 @@ func (g *gen) nextOp(pre snapJ, only string) op {
 			}
 			x := pre.Wls[r.Intn(len(pre.Wls))]
 			o["id"] = x.ID
-			switch r.Intn(4) {
+			switch r.Intn(5) {
+			case 4: // grow to the edge of the node's free memory (just fits / just does not fit)
+				free := 0
+				for _, n := range pre.Nodes {
+					if n.Name == x.Node {
+						free = int(n.Cap.Mem - n.Usage.Mem)
+					}
+				}
+				o["mem"] = free + hx.Pick(r, 0, 0, 64*mib, -64*mib, int(x.Res.Mem)/2)
+				if o.i("mem") == 0 {
+					o["mem"] = 64 * mib
+				}
 			case 0:
 				o["mem"] = r.Range(-4, 6) * 64 * mib
 			case 1:
